@@ -193,6 +193,177 @@ fn guarded<F: FnOnce() -> Result<Img, String>>(f: F) -> Result<Img, String> {
     }
 }
 
+/// a fresh object holding exactly what the live object holds now (samples, dimensions, labels), built through the
+/// constructors: what a conversion returns for it is the reference for "does not depend on the object's history"
+fn fresh_of(i: &Img) -> Result<Img, String> {
+    fn y<T: Pixel>(v: &Yuv<T>) -> Result<Yuv<T>, String> {
+        let p = v.data();
+        Yuv::new(yuvxyb::Frame { planes: [p[0].clone(), p[1].clone(), p[2].clone()] }, v.config()).map_err(|e| format!("fresh:{}", err_name_yuv(e)))
+    }
+    let e = |_| "fresh:ResolutionMismatch".to_string();
+    match i {
+        Img::Yuv8(v) => y(v).map(Img::Yuv8),
+        Img::Yuv16(v) => y(v).map(Img::Yuv16),
+        Img::Rgb(v) => Rgb::new(v.data().to_vec(), v.width(), v.height(), v.transfer(), v.primaries()).map(Img::Rgb).map_err(e),
+        Img::Lin(v) => LinearRgb::new(v.data().to_vec(), v.width(), v.height()).map(Img::Lin).map_err(e),
+        Img::Xyb(v) => Xyb::new(v.data().to_vec(), v.width(), v.height()).map(Img::Xyb).map_err(e),
+        Img::Hsl(v) => Hsl::new(v.data().to_vec(), v.width(), v.height()).map(Img::Hsl).map_err(e),
+    }
+}
+fn paint(i: &mut Img, rng: &mut Rng) -> Result<(), String> {
+    let d: &mut [[f32; 3]] = match i {
+        Img::Rgb(v) => v.data_mut(),
+        Img::Lin(v) => v.data_mut(),
+        Img::Xyb(v) => v.data_mut(),
+        Img::Hsl(v) => v.data_mut(),
+        _ => return Err("bad-call:MutatePayload".to_string()),
+    };
+    for p in d.iter_mut() {
+        *p = [rng.unit() as f32, rng.unit() as f32, rng.unit() as f32];
+    }
+    Ok(())
+}
+fn into_len(i: Img) -> Result<usize, String> {
+    match i {
+        Img::Rgb(v) => Ok(v.into_data().len()),
+        Img::Lin(v) => Ok(v.into_data().len()),
+        Img::Xyb(v) => Ok(v.into_data().len()),
+        Img::Hsl(v) => Ok(v.into_data().len()),
+        _ => Err("bad-call:IntoData".to_string()),
+    }
+}
+fn construct(call: &str, args: &Value, rng: &mut Rng, grey: bool) -> Result<Img, String> {
+    let w = geti(args, "w") as usize;
+    let h = geti(args, "h") as usize;
+    let data = |rng: &mut Rng| if grey { vec![[0.5f32, 0.5, 0.5]; w * h] } else { rand_unit(rng, w * h) };
+    match call {
+        "NewYuv" => new_yuv(&cfg_of(&args["cfg"]), geti(&args["cfg"], "st"), w, h, rng),
+        "NewRgb" => Rgb::new(data(rng), w, h, tc(geti(args, "tc") as u8), cp(geti(args, "cp") as u8)).map(Img::Rgb).map_err(|_| "ResolutionMismatch".to_string()),
+        "NewLin" => LinearRgb::new(data(rng), w, h).map(Img::Lin).map_err(|_| "ResolutionMismatch".to_string()),
+        "NewXyb" => Xyb::new(if grey { vec![[0.0f32, 0.5, 0.5]; w * h] } else { rand_unit(rng, w * h) }, w, h).map(Img::Xyb).map_err(|_| "ResolutionMismatch".to_string()),
+        "NewHsl" => Hsl::new(if grey { vec![[0.0f32, 0.0, 0.5]; w * h] } else { rand_unit(rng, w * h) }, w, h).map(Img::Hsl).map_err(|_| "ResolutionMismatch".to_string()),
+        c => Err(format!("bad-call:{c}")),
+    }
+}
+
+/// One TLC-generated behaviour, stepped through ONE live object.  Each step is logged as a "replay" event (same shape
+/// as a single replayed transition) plus: sid / k (behaviour and step number), obs.pre (projection of the live object
+/// before the call) and obs.fresh (the same conversion on a fresh object holding the same samples).
+fn run_behaviour(steps: &[Value], li: usize, sh: &mut Shards, seed: u64) -> u64 {
+    let mut rng = Rng::new(seed, 0xbe4a_0000 + li as u64);
+    let mut live: Option<Img> = None;
+    let mut n = 0;
+    for (k, step) in steps.iter().enumerate() {
+        let call = step["call"].as_str().unwrap_or("").to_string();
+        let args = &step["args"];
+        let rargs = &step["rargs"];
+        let mut s = String::new();
+        let _ = write!(s, "\"ev\":\"replay\",\"sid\":{li},\"k\":{k},\"case\":{step},\"obs\":{{");
+        if let Some(i) = &live {
+            let _ = write!(s, "\"pre\":{},", post_json(i));
+        }
+        let res: Result<Option<Img>, String> = match call.as_str() {
+            "NewYuv" | "NewRgb" | "NewLin" | "NewXyb" | "NewHsl" => {
+                // every other behaviour starts from an all-grey image (state cached at construction must not outlive data_mut)
+                let grey = li % 2 == 1;
+                guarded(|| construct(&call, args, &mut rng, grey)).map(Some)
+            }
+            "MutatePayload" => match live.take() {
+                None => Err("no-image".to_string()),
+                Some(mut i) => match catch_unwind(AssertUnwindSafe(|| paint(&mut i, &mut rng).map(|()| i))) {
+                    Ok(r) => r.map(Some),
+                    Err(_) => Err("panic".to_string()),
+                },
+            },
+            "Clone" => match live.take() {
+                None => Err("no-image".to_string()),
+                Some(i) => guarded(|| Ok(clone_img(&i))).map(Some),
+            },
+            "IntoData" => match live.take() {
+                None => Err("no-image".to_string()),
+                Some(i) => match catch_unwind(AssertUnwindSafe(|| into_len(i))) {
+                    Ok(Ok(len)) => {
+                        let _ = write!(s, "\"len\":{len},");
+                        Ok(None)
+                    }
+                    Ok(Err(e)) => Err(e),
+                    Err(_) => Err("panic".to_string()),
+                },
+            },
+            _ => match live.take() {
+                None => Err("no-image".to_string()),
+                Some(src) => {
+                    let keep = clone_img(&src); // borrowed sources survive a failed conversion (the model says which)
+                    let fresh = guarded(|| fresh_of(&src));
+                    let witness_src = if args != rargs { Some(clone_img(&src)) } else { None };
+                    let a = guarded(|| convert(&call, src, args));
+                    match fresh {
+                        Ok(f) => {
+                            let b = guarded(|| convert(&call, f, args));
+                            match (&a, &b) {
+                                (Ok(x), Ok(y)) => {
+                                    let _ = write!(s, "\"fresh\":{{\"res\":\"ok\",\"post\":{},\"maxdiff\":{}}},", post_json(y), maxdiff(x, y));
+                                }
+                                (_, Err(e)) => {
+                                    let _ = write!(s, "\"fresh\":{{\"res\":\"{e}\"}},");
+                                }
+                                (_, Ok(_)) => {
+                                    let _ = write!(s, "\"fresh\":{{\"res\":\"ok\"}},");
+                                }
+                            }
+                        }
+                        Err(e) => {
+                            let _ = write!(s, "\"fresh\":{{\"res\":\"{e}\"}},");
+                        }
+                    }
+                    if let Some(ws) = witness_src {
+                        let b = guarded(|| convert(&call, ws, rargs));
+                        match (&a, &b) {
+                            (Ok(x), Ok(y)) => {
+                                let _ = write!(s, "\"resB\":\"ok\",\"postB\":{},\"maxdiff\":{},", post_json(y), maxdiff(x, y));
+                            }
+                            (_, Err(e)) => {
+                                let _ = write!(s, "\"resB\":\"{e}\",");
+                            }
+                            (_, Ok(y)) => {
+                                let _ = write!(s, "\"resB\":\"ok\",\"postB\":{},", post_json(y));
+                            }
+                        }
+                    }
+                    match a {
+                        Ok(i) => Ok(Some(i)),
+                        Err(e) => {
+                            // the model keeps the image when the source was only borrowed
+                            if step["post"]["kind"].as_str() != Some("none") {
+                                live = Some(keep);
+                            }
+                            Err(e)
+                        }
+                    }
+                }
+            },
+        };
+        match res {
+            Ok(Some(i)) => {
+                let _ = write!(s, "\"res\":\"ok\",\"post\":{}}}", post_json(&i));
+                live = Some(i);
+            }
+            Ok(None) => {
+                s.push_str("\"res\":\"ok\"}");
+            }
+            Err(e) => {
+                let _ = write!(s, "\"res\":\"{e}\"}}");
+            }
+        }
+        sh.emit(&s);
+        n += 1;
+        if live.is_none() {
+            break;
+        }
+    }
+    n
+}
+
 pub fn run(cases_path: &str, sh: &mut Shards, seed: u64) -> serde_json::Value {
     let prev = std::panic::take_hook();
     std::panic::set_hook(Box::new(|_| {}));
@@ -204,6 +375,10 @@ pub fn run(cases_path: &str, sh: &mut Shards, seed: u64) -> serde_json::Value {
             continue;
         }
         let case: Value = serde_json::from_str(&line).expect("case json");
+        if let Some(steps) = case.as_array() {
+            n += run_behaviour(steps, li, sh, seed);
+            continue;
+        }
         let call = case["call"].as_str().unwrap_or("").to_string();
         let args = &case["args"];
         let rargs = &case["rargs"];
